@@ -25,6 +25,8 @@ pub fn run_c02(ctx: &Ctx) -> i32 {
         cfg.cel_density = 6;
         cfg.extreme_cels = true;
         cfg.big = true;
+        cfg.aligned_tilemaps = false;
+        cfg.flat = true;
         cfg.extremes = false;
         if i % 7 == 0 {
             cfg.max_w = 40;
@@ -121,6 +123,39 @@ fn c06_model(rng: &mut Rng, i: u64) -> (Sprite, PaletteProgram, &'static str) {
             }
             sp.cels.insert((1, 0), CelM { x: 0, y: 0, opacity: 255, content: CelContentM::Link(0), ud: None });
             (sp, PaletteProgram::Auto, "indexed-transparent-sweep")
+        }
+        0 if i % 100 == 4 => {
+            // > 256 frames: links whose target frame index does not fit in a byte
+            let nf = rng.range(258, 330) as usize;
+            let fmt = *rng.pick(&[Fmt::Rgba, Fmt::Gray]);
+            let mut sp = Sprite::blank(4, 3, fmt, nf);
+            let nl = rng.range(1, 3) as usize;
+            for l in 0..nl {
+                let mut ly = LayerM::image(&format!("l{}", l));
+                ly.opacity = rng.opacity();
+                sp.layers.push(ly);
+            }
+            for l in 0..nl as u16 {
+                for f in [0u16, 1, 255, 256, 257, (nf - 1) as u16] {
+                    if rng.chance(2, 3) {
+                        let px = gen::gen_pixels(rng, &sp, 2);
+                        sp.cels.insert((f, l), CelM { x: (f % 3) as i16, y: (f % 2) as i16, opacity: rng.opacity(), content: CelContentM::Image { w: 2, h: 1, pixels: px }, ud: None });
+                    }
+                }
+                let raw: Vec<u16> = sp.cels.keys().filter(|k| k.1 == l).map(|k| k.0).collect();
+                if raw.is_empty() {
+                    continue;
+                }
+                for _ in 0..6 {
+                    let from = rng.below(nf as u64) as u16;
+                    let to = *rng.pick(&raw);
+                    if from != to && !sp.cels.contains_key(&(from, l)) {
+                        let t = sp.cels[&(to, l)].clone();
+                        sp.cels.insert((from, l), CelM { x: t.x, y: t.y, opacity: t.opacity, content: CelContentM::Link(to), ud: None });
+                    }
+                }
+            }
+            (sp, PaletteProgram::Auto, "many-frames-links")
         }
         3 if i % 20 == 3 => {
             // a linked cel whose target is a tilemap cel (legal: Aseprite links cels on tilemap layers too)
